@@ -11,8 +11,9 @@ RULE = ('peptides of length 2..15 over the 20 standard letters + U,O with numeri
         'z-fold charge adds (z-1)H+, and "a modification shifts exactly the ions containing it" are evaluated between '
         'observed values, with only CO, NH3, H2, H+ and residue masses taken from the reference atom table. '
         'signature = (length, mode, modification placements, max charge); non-trivial = length >= 3 or a modification')
-ASSUMPTIONS = ['average mode: an identity involving k charge carriers is checked to 1e-5 + k*1.16e-4 (CODATA proton vs '
-               'average hydrogen minus an electron; the statement does not fix the convention); monoisotopic: 1e-5',
+ASSUMPTIONS = ['average mode: an identity that adds k explicit protons is checked to 1e-5 + k*1.16e-4 (CODATA proton vs '
+               'average hydrogen minus an electron; the statement does not fix the convention); series offsets between '
+               'equally charged ions (a/b/c, x/y/z) cancel the carrier and are checked to 1e-5 in both modes; monoisotopic: 1e-5',
                'immonium ions of a terminal residue are not compared when that terminus carries a modification (the '
                'statement does not say whether such an ion contains the terminus)']
 LEVEL_TEXT = ('Ion-series identities are evaluated on the observed output of every monitored fragment()/mass() '
@@ -107,16 +108,16 @@ def check(ctx, st, c):
             a = ion.get(('a', 0, i, 1))
             cc = ion.get(('c', 0, i, 1))
             if a is not None:
-                eq('a=b-CO', 'a', a, b[i] - K['CO'], 2, {'i': i})
+                eq('a=b-CO', 'a', a, b[i] - K['CO'], 0, {'i': i})
             if cc is not None:
-                eq('c=b+NH3', 'c', cc, b[i] + K['NH3'], 2, {'i': i})
+                eq('c=b+NH3', 'c', cc, b[i] + K['NH3'], 0, {'i': i})
         if y[i] is not None:
             x = ion.get(('x', n - i, n, 1))
             z = ion.get(('z', n - i, n, 1))
             if x is not None:
-                eq('x=y+CO-H2', 'x', x, y[i] + K['CO'] - K['H2'], 2, {'j': i})
+                eq('x=y+CO-H2', 'x', x, y[i] + K['CO'] - K['H2'], 0, {'j': i})
             if z is not None:
-                eq('z=y-NH3', 'z', z, y[i] - K['NH3'], 2, {'j': i})
+                eq('z=y-NH3', 'z', z, y[i] - K['NH3'], 0, {'j': i})
     # immonium = residue - CO + H+
     for i in range(n):
         im = ion.get(('i', i, i + 1, 1))
